@@ -2,18 +2,23 @@
     property predicate [Pb] on the observed measurement itself. *)
 From Coq Require Import List Bool Arith ZArith.
 Import ListNotations.
-Require Import Nib.C05.Model Nib.C05.Spec.
+Require Import Nib.C05.Model Nib.C05.ModelX Nib.C05.Spec.
 Open Scope Z_scope.
 
 (** accounts of a scenario: 0 signer, 1 fee collector, 2 R, 3 X, 4 B, 5 N, 6 Y, 7 B2, 8 C3, 9 D, 10 and 11 second and third signer,
     12 factory F, 13 the address of F's next creation, 14 wasm contract W (32-byte address),
-    15 PH = the 20-byte account made of the last 20 bytes of W *)
-Definition universe : list nat := [0; 1; 2; 3; 4; 5; 6; 7; 8; 9; 10; 11; 12; 13; 14; 15]%nat.
+    15 PH = the 20-byte account made of the last 20 bytes of W, 16 the EVM module account (where SetAccBalance mints and
+    burns), 17 script contract Z, 18 the x/distribution module account (blocked by the bank, like 1 and 16) *)
+Definition universe : list nat := [0; 1; 2; 3; 4; 5; 6; 7; 8; 9; 10; 11; 12; 13; 14; 15; 16; 17; 18]%nat.
+Definition evm_module : nat := 16%nat.
 
 Record otx := {
   o_base_fee : Z; o_block_gas : Z;
   o_tx : etx; o_out : outcome;
   o_trunc : list (nat * nat);            (* (longer address, its last-20-bytes account) pairs a bank send of the tx touched *)
+  o_x : option (list xop * bool);        (* Some: what the EVM run DID (transfers, frames kept or reverted, precompile calls) in a
+                                            top-level frame that is kept or not; the effects are computed (ModelX.v) *)
+  o_blocked : list nat;                  (* accounts of [universe] for which BankKeeper.BlockedAddr holds (measured) *)
   o_before : list Z; o_after : list Z;   (* unibi balances of [universe] around DeliverTx *)
   o_supply_before : Z; o_supply_after : Z
 }.
@@ -47,19 +52,36 @@ Definition outcome_eqb (a b : outcome) : bool :=
   | _, _ => false
   end.
 
-(** [sync_repaired] is the regenerated fact "SyncStateDBWithAccount mirrors 20-byte addresses only": the model run
-    against the implementation is the model of the code as it stands *)
-Definition tx_agrees (sync_repaired : bool) (o : otx) : bool :=
-  let '(b', out) := deliver_cur (if sync_repaired then [] else o_trunc o) (env_of o)
-                                (bank_of (o_before o) (o_supply_before o)) (o_tx o) in
+Definition xcfg_of (o : otx) : xcfg := {| x_module := evm_module; x_blocked := o_blocked o |}.
+
+(** [sync_repaired] is the regenerated fact "SyncStateDBWithAccount mirrors 20-byte addresses only", [journal_first] the
+    regenerated fact "OnRunStart journals the PrecompileCalled entry before it flushes": the model run against the
+    implementation is the model of the code as it stands *)
+Definition tx_agrees (sync_repaired journal_first : bool) (o : otx) : bool :=
+  let '(b', out) :=
+    match o_x o with
+    | None => deliver_cur (if sync_repaired then [] else o_trunc o) (env_of o)
+                          (bank_of (o_before o) (o_supply_before o)) (o_tx o)
+    | Some (xs, keep) => fst (deliver_x journal_first (xcfg_of o) (env_of o)
+                                        (bank_of (o_before o) (o_supply_before o)) (o_tx o) xs keep)
+    end in
   outcome_eqb out (o_out o) &&
   forallb (fun a => bal b' a =? lookup universe (o_after o) a) universe &&
   (supply b' =? o_supply_after o).
 
 
 
+(** the tx as [P] sees it: for a scripted run the net effects are those of the specified behaviour (entry journaled
+    before the flush) on the observed pre-state *)
+Definition spec_tx (o : otx) : etx :=
+  match o_x o with
+  | None => o_tx o
+  | Some (xs, keep) =>
+      set_evm (o_tx o) (EvmOk (snd (deliver_x true (xcfg_of o) (env_of o) (bank_of (o_before o) (o_supply_before o)) (o_tx o) xs keep)))
+  end.
+
 Definition meas_of (o : otx) : meas :=
-  {| m_env := env_of o; m_tx := o_tx o; m_out := o_out o;
+  {| m_env := env_of o; m_tx := spec_tx o; m_out := o_out o;
      m_before := bank_of (o_before o) (o_supply_before o);
      m_after := bank_of (o_after o) (o_supply_after o) |}.
 
@@ -94,8 +116,8 @@ Definition bmeas_of (o : obundle) : bmeas :=
      bm_before := bank_of (ob_before o) (ob_supply_before o);
      bm_after := bank_of (ob_after o) (ob_supply_after o) |}.
 
-Definition mismatch (sync_repaired : bool) (c : case) : bool :=
-  existsb (fun o => negb (tx_agrees sync_repaired o)) (fst c) || existsb (fun o => negb (bundle_agrees o)) (snd c).
+Definition mismatch (sync_repaired journal_first : bool) (c : case) : bool :=
+  existsb (fun o => negb (tx_agrees sync_repaired journal_first o)) (fst c) || existsb (fun o => negb (bundle_agrees o)) (snd c).
 
 Definition violates (c : case) : bool :=
   existsb (fun o => negb (Pb (meas_of o))) (fst c) || existsb (fun o => negb (PBb (bmeas_of o))) (snd c).
